@@ -129,7 +129,7 @@ class Lexer:
                 try:
                     text = text.decode('utf-8')
                 except UnicodeDecodeError:
-                    text = text.decode('unicode-escape')
+                    text = text.decode('latin-1')
         else:
             raise TypeError("Expected text or file-like object, got {!r}".
                             format(type(text)))
